@@ -210,4 +210,4 @@ def finalize(m, tier):
 
 
 def replay(case, ctx):
-    check_text(ctx, case["text"], case["docs"], case.get("class", "replay"), must_compile=False)
+    check_text(ctx, case["text"], case["docs"], case.get("class", "replay"), must_compile=case.get("must_compile", False))
